@@ -11,7 +11,7 @@ demo=$(ls $sd | grep -E '\.rs$' | head -1)
 [ -z "$demo" ] && { echo "no demo in $sd"; exit 2; }
 if grep -q "fn main" $sd/$demo && ! grep -q "#\[test\]" $sd/$demo; then kind=example; else kind=test; fi
 place() { if [ $kind = example ]; then mkdir -p examples; cp $sd/$demo examples/demo.rs; else cp $sd/$demo tests/seed_demo.rs; fi; }
-rundemo() { if [ $kind = example ]; then timeout 600 cargo run --offline --example demo >/tmp/seed/demo-$p-$n.log 2>&1; else timeout 600 cargo test --offline --test seed_demo >/tmp/seed/demo-$p-$n.log 2>&1; fi; }
+rundemo() { if [ $kind = example ]; then timeout 600 cargo run --offline ${FEATURES:+--features $FEATURES} --example demo >/tmp/seed/demo-$p-$n.log 2>&1; else timeout 600 cargo test --offline ${FEATURES:+--features $FEATURES} --test seed_demo >/tmp/seed/demo-$p-$n.log 2>&1; fi; }
 # without change
 place; rundemo; rc_without=$?
 rm -f tests/seed_demo.rs examples/demo.rs
